@@ -98,11 +98,13 @@ def cases(tier, seed):
     # (e) defective eigenvectors, (f) (R,L) in Hermitian mode, (h) both subspace arguments, (i) option conflicts
     for sizes in ((1, 1), (2, 1), (1, 2), (1, 1, 1)):
         for defect in ("scaled", "overlap", "nonorthogonal", "biorth-broken", "RL-in-hermitian", "both-args", "fd-custom-solver", "fd-implicit", "ndarray-fd-multiblock",
-                       "overlap-e0", "overlap-e0-pairs", "RL-in-hermitian-last", "RL-in-hermitian-last-dual"):
+                       "overlap-e0", "overlap-e0-pairs", "RL-in-hermitian-last", "RL-in-hermitian-last-dual",
+                       "scaled-down", "nonorthogonal-negative", "biorth-broken-sign", "biorth-broken-phase"):
             for rep in ("dense", "sympy", "csr_array", "csc_array", "coo_array", "csr_matrix"):
-                if rep not in ("dense", "sympy") and defect not in ("scaled", "overlap", "nonorthogonal", "biorth-broken", "overlap-e0"):
+                if rep not in ("dense", "sympy") and defect not in ("scaled", "overlap", "nonorthogonal", "biorth-broken", "overlap-e0",
+                                                                      "scaled-down", "nonorthogonal-negative", "biorth-broken-sign"):
                     continue  # the sparse containers matter for the eigenvector validation only
-                out.append(dict(sizes=list(sizes), cls="options", defect=defect, repr=rep, total=2, hermitian=defect != "biorth-broken"))
+                out.append(dict(sizes=list(sizes), cls="options", defect=defect, repr=rep, total=2, hermitian=not defect.startswith("biorth-broken")))
     # (g) non-Hermitian symbolic term at each order in Hermitian mode
     for order in (0, 1, 2, 3):
         for nsym in (1, 2):
@@ -436,6 +438,23 @@ def run_options(case):
     if defect == "scaled":
         vecs[0] = vecs[0] * 2
         kwargs["subspace_eigenvectors"] = tuple(conv(v.astype(complex)) for v in vecs)
+    elif defect == "scaled-down":  # deviations of L† R from 1 with negative sign only
+        vecs[0] = vecs[0] * 0.9
+        kwargs["subspace_eigenvectors"] = tuple(conv(v.astype(complex)) for v in vecs)
+    elif defect == "nonorthogonal-negative":
+        v = vecs[-1].copy()
+        v[:, 0] = v[:, 0] - 0.3 * vecs[0][:, 0]
+        v[:, 0] /= np.linalg.norm(v[:, 0])  # normalised, overlap with the first subspace is negative
+        vecs[-1] = v
+        kwargs["subspace_eigenvectors"] = tuple(conv(x.astype(complex)) for x in vecs)
+    elif defect in ("biorth-broken-sign", "biorth-broken-phase"):
+        pairs = []
+        for b, v in enumerate(vecs):
+            L = v.astype(complex).copy()
+            if b == 0:
+                L[:, 0] = L[:, 0] * (-1 if defect.endswith("sign") else 1j)  # L† R = -1 (or -i) in one state
+            pairs.append((conv(v.astype(complex)), conv(L)))
+        kwargs["subspace_eigenvectors"] = tuple(pairs)
     elif defect == "overlap":
         vecs[-1] = vecs[-1].copy()
         vecs[-1][:, 0] = vecs[0][:, 0]
